@@ -41,6 +41,7 @@ MAP = [
  ("guard is the constant False", ["C05"]),
  ("guard that is also a solve variable", ["C08", "C02"]),
  ("dependency that was already planned", ["C04"]),
+ ("loop bounds of a guarded array assignment", ["C05", "C01"]),
 ]
 def main():
     log = subprocess.run(["git", "-C", "/repo", "log", "--reverse", "--format=%h %s"],
